@@ -501,6 +501,11 @@ class CNF(SimpleSequence[Clause]):
     def assert_k_of_n(self, k: int, in_list: Sequence[Var]):
         # TODO DOC
         # TODO: Describe this function's purpose.
+        if k > len(in_list):
+            # More than all of the variables can never be true. (The bit
+            # comparison below would silently drop k's high bits.)
+            self._assert_unsatisfiable(in_list)
+            return
         in_binary =  int_to_binary(k)
         sum_bits = self.pop_count(in_list, len(in_binary)+1)
         # Add zero padding to the left.
@@ -521,7 +526,22 @@ class CNF(SimpleSequence[Clause]):
         # TODO DOC
         self._inequality_assertion(False, k, in_list)
 
+    def _assert_unsatisfiable(self, in_list: Sequence[Var]):
+        if not in_list:
+            raise ValueError("cannot take pop count of empty list")
+        v = Var(in_list[0])
+        self.prepend(CNF([[v], [~v]]))
+
     def _inequality_assertion(self, assert_less_than: bool, k: int, in_list: Sequence[Var]):
+        # The subtraction below has no spare sign bit when k does not fit in
+        # the width of the pop count, so settle out-of-range k directly.
+        if assert_less_than and k > len(in_list):
+            # The count is always less than k: nothing to assert.
+            return
+        if not assert_less_than and k >= len(in_list):
+            # The count can never exceed k.
+            self._assert_unsatisfiable(in_list)
+            return
         in_binary = int_to_binary(k)
         sum_bits = self.pop_count(in_list, len(in_binary)+1)
         k_vars = self.get_n_fresh(len(in_binary))
